@@ -285,7 +285,7 @@ PROPS = {
             "also": ["C09_SrvStreamLevel", "C09_CliStreamLevel", "C09_BoundedBuffer", "C05_CreditConserved", "C05_CreditExact"],
             "quick": lambda s: gen.fam_data(s, 48) + gen.fam_flow(s, 16) + [x for x in gen.fam_hostile_srv(s) + gen.fam_hostile_cli(s) if "overrun" in x["name"]],
             "thorough": lambda s: gen.fam_data(s, 600, big=True) + gen.fam_flow(s, 200) + gen.fam_hostile_srv(s) + gen.fam_hostile_cli(s)},
-    "C04": {"level": "model_checking", "model_replay": (40, 400), "mc": {"quick": ["MC_err_close"], "thorough": ["MC_err_close", "MCT_one_close", "MCT_err_all2", "Live_one", "Live_err_cancel"]}, "also": ["C16_NoSuccessOnWrongCount"], "hang": True,
+    "C04": {"level": "model_checking", "model_replay": (40, 400), "mc": {"quick": ["MC_err_close", "MC_err_fail"], "thorough": ["MC_err_close", "MC_err_fail", "MCT_one_close", "MCT_err_all2", "Live_one", "Live_err_cancel"]}, "also": ["C16_NoSuccessOnWrongCount"], "hang": True,
             "quick": lambda s: gen.fam_life(s, 5),
             "thorough": lambda s: gen.fam_life(s, 0) + gen.fam_gates(s, 0, faults=("close",))},
     "C07": {"level": "model_checking", "model_replay": (40, 400), "mc": {"quick": ["MC_err_cancel"], "thorough": ["MC_err_cancel", "MC_down_cancel", "MCT_one_cancel", "Live_err_cancel"]}, "also": ["C16_NoSuccessOnWrongCount"], "hang": True,
@@ -302,6 +302,8 @@ PROPS = {
                                + gen.fam_cancel(s, 3, policies=("lazy", "slowcli")) + gen.fam_indep(s, 3, policies=("random",)),
             "thorough": lambda s: gen.fam_life(s, 0) + gen.fam_cancel(s, 0) + gen.fam_indep(s, 0) + gen.fam_gates(s, 4)},
     "C02": {"level": "model_checking", "also": ["C16_NoSuccessOnWrongCount"], "race_extra": lambda s: gen.fam_free(s, 40),
+            # the design with header / trailer values: every interleaving with a Close (quick) and with a cancel (thorough, 12 M states)
+            "mc": {"quick": ["MC_one", "MC_meta2_close"], "thorough": ["MC_one", "MC_meta2_close", "MC_meta_cancel", "MC_err_fail"]}, "model_replay": (28, 280),
             "quick": lambda s: gen.fam_meta(s, 160) + gen.fam_data(s, 24),
             "thorough": lambda s: sum((gen.fam_meta(s + i, 400, gated=(i == 0)) for i in range(4)), []) + gen.fam_data(s, 200)},
     "C16": {"level": "model_checking",
